@@ -79,6 +79,14 @@ def gen_case(rng):
         else:
             c["expect"] = ("ok", exp)
         return c
+    if r < 0.88:
+        # documents whose ROOT is a list or a scalar: variables ($env:, $repeat) are still found by interpolation
+        items = [rng.choice(["$\"{$env:HOME}/x\"", "$\"n{$env:NUM}\"", "$env:HOME", "$\"{$env:NOSUCH}\"", "$\"{0}\"", "plain", 1,
+                             {"k": "$\"{$env:SP}\""}, ["$\"{$env:EQ}\""], "$\"i{$repeat}\"", "$\"{nosuch}\""]) for _ in range(rng.randint(1, 4))]
+        root = rng.choice([items, items, "$\"{$env:HOME}\"", "$\"{$env:NOSUCH}\"", [{"$repeat": 2}] + items])
+        docs = [root] if rng.random() < 0.6 else [{"first": 1}, root]
+        steps = [{"merge": {"id": f"D{i}", "parents": [], "data": d}} for i, d in enumerate(docs)] + [{"outdocs": True}]
+        return {"steps": steps, "env": gen.ENV}
     d = gen.eval_doc(rng, {"interp": 5, "ref": 1, "repeat": 0.5}, depth=3, nfeat=(1, 3))
     return chain_case([d], env=gen.ENV, tail=("outdocs",))
 
